@@ -89,6 +89,13 @@ def shapes(quick):
     for n in ((-12, 'Etc/GMT+12'), (-5, 'Etc/GMT+5'), (1, 'Etc/GMT-1'), (10, 'Etc/GMT-10'), (14, 'Etc/GMT-14')):
         reg('dt-gmt%d' % n[0], lambda h, l, n=n: h.dt(2021, 3, 4, 5, 6, 7, 0, n[0] * 3600, n[1]))
     reg('dt-frac', lambda h, l: h.dt(2021, 3, 4, 5, 6, 7, 123000000, 0, 'UTC'))
+    # named IANA zones (offset valid at that instant; the zone rules themselves are outside the model: the instant is compared)
+    reg('dt-kolkata', lambda h, l: h.dt(2021, 6, 15, 12, 0, 0, 0, 19800, 'Asia/Kolkata'))
+    reg('dt-stjohns', lambda h, l: h.dt(2021, 1, 15, 12, 0, 0, 0, -12600, 'America/St_Johns'))
+    reg('dt-newyork', lambda h, l: h.dt(2021, 1, 15, 23, 59, 59, 0, -18000, 'America/New_York'))
+    reg('dt-kathmandu', lambda h, l: h.dt(2021, 1, 15, 0, 0, 1, 0, 20700, 'Asia/Kathmandu'))
+    reg('dt-knox', lambda h, l: h.dt(2021, 1, 15, 12, 0, 0, 0, -21600, 'America/Indiana/Knox'))
+    reg('dt-buenos-aires', lambda h, l: h.dt(2021, 1, 15, 12, 0, 0, 0, -10800, 'America/Argentina/Buenos_Aires'))
     # collections
     leaf = lambda h, l: h.str_(l.text(1))
     reg('list0', lambda h, l: h.list_([]))
@@ -151,14 +158,18 @@ def dec_float(ex, l, ni, nf):
 
 
 def sym_date(ex, l):
-    y = z3.BitVec('yy%d' % l.n, 32); m = z3.BitVec('mo%d' % l.n, 32); d = z3.BitVec('dd%d' % l.n, 32); l.n += 1
-    from mirsym.models_chrono import valid_ymd
-    ex.assume(z3.And(z3.ULE(y, 9999), valid_ymd(y, m, d)))
+    """calendar date from symbolic decimal digits (so that text <-> value is syntactic): years 0000-9999"""
+    from mirsym.models_chrono import valid_ymd, dval
+    ds = [l.byte([(48, 57)], 'dg') for _ in range(8)]
+    y, m, d = dval(ds[0:4]), dval(ds[4:6]), dval(ds[6:8])
+    ex.assume(valid_ymd(y, m, d))
     return (y, m, d)
 
 
 def sym_time(ex, l):
-    h = z3.BitVec('hh%d' % l.n, 32); mi = z3.BitVec('mi%d' % l.n, 32); s = z3.BitVec('ss%d' % l.n, 32); l.n += 1
+    from mirsym.models_chrono import dval
+    ds = [l.byte([(48, 57)], 'dg') for _ in range(6)]
+    h, mi, s = dval(ds[0:2]), dval(ds[2:4]), dval(ds[4:6])
     ex.assume(z3.And(z3.ULE(h, 23), z3.ULE(mi, 59), z3.ULE(s, 59)))
     return (h, mi, s, 0)
 
@@ -246,6 +257,7 @@ def post_roundtrip(ex, t, r):
     except Unsupported as u:
         return {'kind': 'unsupported', 'detail': 'concretize: %s' % u, 'where': None}
     if ex.side.get('axiomatised_floats'): s['float_axiom'] = True
+    if ex.side.get('named_zone'): s['zone_axiom'] = True
     s['native_case'] = {'api': 'zinc_roundtrip', 'v': s['orig']}
     if st.get('text') is not None and st.get('stage') != 'encode':
         s['text'] = cz.bytes_(VecV(list(st['text']), 'vec')).hex()
@@ -274,6 +286,9 @@ def compare_roundtrip(s):
     if 'err' in n: return 'mirsym: decoded, native: %s' % str(n)[:200]
     if 'decoded' in s and not s.get('float_axiom'):
         nv = norm_native(n['ok'])
+        if s.get('zone_axiom'):
+            from props.zinc_common import strip_dt
+            if strip_dt(nv) == strip_dt(s['decoded']): return None
         if nv != s['decoded']: return 'decoded value differs: mirsym %s native %s' % (str(s['decoded'])[:200], str(nv)[:200])
     return None
 
